@@ -113,6 +113,44 @@ theorem parsed_condition_has_three_words (s : Bytes) (c : Cond) (h : parseCondit
   obtain ⟨k, t, hf, _⟩ := (condition_parser_exact s c).mp h
   rw [hf]; rfl
 
+theorem digitsVal_all_digits (t : Bytes) : ∀ acc n, Rec.digitsVal t acc = some n → ∀ b ∈ t, Rec.isDigit b = true := by
+  induction t with
+  | nil => intro _ _ _ b hb; simp at hb
+  | cons c rest ih =>
+    intro acc n h b hb
+    simp only [Rec.digitsVal] at h
+    split at h
+    · rename_i hc
+      rcases List.mem_cons.mp hb with rfl | hb'
+      · exact hc
+      · exact ih _ _ h b hb'
+    · simp at h
+
+/-- The threshold of an accepted condition is written in decimal digits only — no sign, no prefix
+    (`0x`, `0o`, a leading zero is just a zero), no separators, no exponent — and is its decimal value,
+    below 2^64. -/
+theorem parsed_threshold_is_plain_decimal (s : Bytes) (c : Cond) (h : parseCondition s = some c) :
+    ∃ k t, fields s = [k, geB, t] ∧ t ≠ [] ∧ (∀ b ∈ t, Rec.isDigit b = true) ∧
+      Rec.digitsVal t 0 = some c.threshold ∧ c.threshold < 2 ^ 64 := by
+  obtain ⟨k, t, hf, ht, _⟩ := (condition_parser_exact s c).mp h
+  refine ⟨k, t, hf, ?_⟩
+  unfold Rec.parseUint64 at ht
+  split at ht
+  · simp at ht
+  · rename_i hne
+    split at ht
+    · rename_i n hn
+      split at ht
+      · rename_i hlt
+        injection ht with ht
+        rw [← ht]
+        exact ⟨hne, digitsVal_all_digits t 0 n hn, hn, hlt⟩
+      · simp at ht
+    · simp at ht
+
+-- "entropy >= 040" is forty, not thirty-two
+example : parseCondition [101, 110, 116, 114, 111, 112, 121, 32, 62, 61, 32, 48, 52, 48] = some ⟨.entropy, 40⟩ := by decide
+
 /-- **The model's `fields` is Go's `strings.Fields`** as its documentation defines it: the maximal
     substrings between `unicode.IsSpace` runes, with runes decoded the way `for … range` decodes
     them (`Utf8.decodeRune`: overlong, surrogate, out-of-range and truncated spellings are one-byte
